@@ -2,6 +2,10 @@ mod consts;
 mod executor;
 pub mod opcode;
 mod value;
+#[cfg(melstf_verif)]
+pub mod verif_hooks;
+#[cfg(melstf_verif)]
+pub use executor::Executor as VerifExecutor;
 use std::sync::Arc;
 
 use bytes::Bytes;
